@@ -308,6 +308,10 @@ def run(tier):
     import x02_raw
     if x02_raw.enabled():
         x02_raw.run_part(ck, tier)
+    # extension X29: the stream over a child's pipes, log entries over a connection (checks/x29_pipelog.py, docs/X29_pipelog.md)
+    import x29_pipelog
+    if x29_pipelog.enabled():
+        x29_pipelog.run_part(ck, tier)
     return ck.finish()
 
 
@@ -316,6 +320,9 @@ def replay(path):
     if d["detail"].get("x02"):
         import x02_raw
         return x02_raw.replay(d["detail"], path)
+    if d["detail"].get("x29"):
+        import x29_pipelog
+        return x29_pipelog.replay(d["detail"], path)
     beh = d["detail"].get("behaviour")
     if not beh:
         print(json.dumps(d["detail"], indent=1)[:4000])
